@@ -55,6 +55,7 @@ class Sim(object):
         self.S = [0, BUDGET]
         self.tracer = self._make_tracer(self.S, None)
         self.sched_keys = set()
+        self.point_lines = set()
         self.total_steps = 0
         self.t0_clock = None
 
@@ -107,6 +108,9 @@ class Sim(object):
         self.count('fired.' + kind)
         mod = os.path.basename(frame.f_code.co_filename)[:-3]
         self.count('preempt_in.' + mod)
+        self.point_lines.add((mod, frame.f_lineno))
+        if ctx.entry.effect == 'rebind' and kind in ('cancel', 'nest', 'yield'):
+            self.count('probe.fault_inside_rebinding_operator')
         if kind == 'check':
             self.pool_check(ctx.op, 'at-check')
         elif kind == 'cancel':
@@ -154,6 +158,11 @@ class Sim(object):
             kwargs = {k: b.build(v) for k, v in sorted(op['kwargs'].items())}
         except MissingHandle:
             return None
+        for x in [op.get('recv')] + list(op['args']) + list(op['kwargs'].values()):
+            if x and 'h' in x and x['h'] >= HSTRIDE and x['h'] % HSTRIDE < 32:
+                self.count('probe.result_reused_as_argument')
+                if x is op.get('recv') and entry.effect.startswith('mutator'):
+                    self.count('probe.result_as_mutator_receiver')
         ctx = OpCtx()
         ctx.op, ctx.entry, ctx.recv, ctx.args, ctx.kwargs = op, entry, recv, args, kwargs
         ctx.depth, ctx.pidx, ctx.cancel_kind, ctx.fired, ctx.steps = depth, 0, None, [], 0
@@ -287,6 +296,8 @@ class Sim(object):
             ctx.recv_inf.snap = snap(ctx.recv)
             rec['recv_post'] = ctx.recv_inf.snap
             self.count('mutator_applied')
+            if id(ctx.recv) in self.pool.copyrel:
+                self.count('probe.mutator_on_copy_or_its_source')
             if ctx.recv_inf.born != op['id'] and pool.alias_count(ctx.recv) > 1:
                 self.count('probe.mutator_on_aliased')
         if kind == 'ok':
@@ -296,6 +307,8 @@ class Sim(object):
                     ctx.recv if ctx.recv is not None else val))
                 if is_copy:
                     self.count('probe.copy_made')
+                    self.pool.copyrel.add(id(ctx.args[0]))
+                    self.pool.copyrel.add(id(ctx.recv if ctx.recv is not None else val))
                 else:
                     for o in ctx.reach:
                         if o is ctx.recv:
